@@ -1,26 +1,46 @@
-"""U13: `calculate_named_arg_order` (abra_core/src/statics/resolve.rs), sliced verbatim, compiled
-against the REAL utils crate (IdSet, HashMap) with its argument types reduced by type substitution
-only, and executed on EVERY input of a bounded domain (arity <= 3, <= 4 call arguments).
+"""U13: named / default argument resolution of abra_core/src/statics/resolve.rs (property C18, C04 leaf):
+the caller `calculate_func_call_order` (misuse diagnostics + recording of the argument order) and the
+callee `calculate_named_arg_order`, both sliced verbatim, compiled natively against the REAL utils crate
+and executed on EVERY input of a bounded domain (arity <= 3, every subset of defaults, <= 4 call
+arguments, each positional or named with a, b, c or zz: 11,715 call shapes).
 
-Back end: exhaustive native enumeration.  Kani was tried first (as DESIGN.md plans): with String
-names and Rc payloads CBMC reached 17 GB; with u8 names, an inline Rc and one concrete
-(arity, length) pair per call it still ran out of 6 GB (the function's
-`iter().flatten().cloned().collect()` and Vec allocation dominate).  The bounded domain has 11,715
-inputs, so it is executed completely instead; panics are caught with catch_unwind.
+Back end: exhaustive native enumeration (bounded, labelled so).  Kani was tried first (as DESIGN.md
+plans): with String names and Rc payloads CBMC reached 17 GB; with u8 names, an inline Rc and one
+concrete (arity, length) pair per call it still ran out of 6 GB (the callee's
+`iter().flatten().cloned().collect()` and Vec allocation dominate).  Panics are caught with catch_unwind.
 
-Sliced verbatim on every run:
-  resolve.rs  : fn calculate_named_arg_order
-  statics.rs  : struct FuncArgDetails minus the fields the function does not read
-  ast.rs      : struct FuncCallArg; struct Identifier minus loc/id
-  utils       : the real crate, as a path dependency (IdSet<String>, hash::HashMap, get_id)
-Type substitutions / stubs:
-  T1 FuncArgDetails: fields `symbol_table`, `required_args` dropped (not read by the function).
-  T4 Expr -> opaque `struct Expr { id: u32 }` behind the real std::rc::Rc.
-  T5 Identifier: fields `loc`, `id` dropped (only `.v` is read); Hash derived.
+Sliced verbatim on every run (tools/slicer.py, by name):
+  resolve.rs : fn calculate_func_call_order, fn calculate_named_arg_order, fn resolve_identifier,
+               fn resolve_symbol, struct SymbolTable, struct SymbolTableBase,
+               SymbolTableBase::{lookup_declaration, extend_declaration},
+               SymbolTable::{empty, lookup_declaration, extend_declaration}
+  statics.rs : struct FuncArgDetails (complete); the four field declarations of StaticsContext that the
+               sliced code touches (resolution_map, func_arg_details, function_call_arg_order, errors)
+  ast.rs     : struct FuncCallArg, struct NodeId, struct Identifier minus `loc` + its Hash impl +
+               `impl Identifier { node }`, `impl Expr { node }`
+  utils      : the real crate as a path dependency: IdSet<String> (get_id, try_get_id, Index),
+               hash::{HashMap, HashSet}, and the REAL `swrite!` macro
+Type substitutions / stubs (every one is listed in info['trusted_base']):
+  T1 StaticsContext -> a struct with exactly the four fields above (their real declarations).
+  T2 Expr -> opaque `struct Expr { id: NodeId }` behind the real Rc (+ the real `impl Expr { node }`).
+  T3 AstNode -> opaque enum {Expr(Rc<Expr>), Identifier(Rc<Identifier>), Other(NodeId)} with `id()`.
+  T4 Declaration -> opaque enum {Function(FuncArgDetailsKey), Var(AstNode)};
+     FuncArgDetailsKey -> opaque id; `FuncArgDetailsKey::try_from(&Declaration)` -> Ok for Function.
+  T5 Identifier: field `loc` dropped.   T6 Namespace -> unit struct (SymbolTableBase.namespaces is never read).
+  T7 Error -> the two variants the sliced code builds (GenericWithNode, UnresolvedIdentifier).
+`resolve_identifier(ctx, &func_arg_info.symbol_table, name)` is NOT stubbed: the real function, the real
+resolve_symbol and the real SymbolTable lookup are compiled.  The contract the coordinator asked for
+("pushes an unresolved-identifier error iff the name is not a parameter") therefore is a consequence,
+not an assumption; it holds because update_function_arg_info creates the table with
+`SymbolTable::empty()` (no enclosing scope) and extends it with exactly one `Declaration::Var` per
+(non-self) parameter name, and `lookup_declaration` only consults `declarations` and `enclosing`.
+The harness builds FuncArgDetails by mirroring update_function_arg_info; the unit checks on every run
+that the function still consists of those statements.
 """
 import json
 import os
 import re
+import shutil
 import subprocess
 import time
 import slicer as S
@@ -35,14 +55,63 @@ A = 'abra_core/src/ast.rs'
 IDS = 'utils/src/id_set.rs'
 
 PRELUDE = """#![allow(dead_code, unused_imports, unused_variables, unused_mut, private_interfaces, clippy::all)]
+use std::cell::RefCell;
+use std::hash::Hasher;
 use std::rc::Rc;
-use utils::hash::HashMap; // the real utils crate (path dependency)
+use utils::hash::{HashMap, HashSet}; // the real utils crate (path dependency)
 use utils::id_set::IdSet;
+use utils::swrite; // the real macro
 
-// ---- T4: opaque expression ----
+// ---- T2: opaque expression ----
 #[derive(Debug, Clone, PartialOrd, Ord, PartialEq, Eq, Hash)]
 pub(crate) struct Expr {
-    pub(crate) id: u32,
+    pub(crate) id: NodeId,
+}
+
+// ---- T3: opaque AST node handle ----
+#[derive(Debug, Clone)]
+pub(crate) enum AstNode {
+    Expr(Rc<Expr>),
+    Identifier(Rc<Identifier>),
+    Other(NodeId),
+}
+impl AstNode {
+    pub(crate) fn id(&self) -> NodeId {
+        match self {
+            AstNode::Expr(e) => e.id,
+            AstNode::Identifier(i) => i.id,
+            AstNode::Other(n) => *n,
+        }
+    }
+}
+
+// ---- T4: opaque declaration / function key ----
+#[derive(Debug, Clone, PartialEq, Eq, Hash)]
+pub(crate) struct FuncArgDetailsKey(pub u32);
+#[derive(Debug, Clone)]
+pub(crate) enum Declaration {
+    Function(FuncArgDetailsKey),
+    Var(AstNode),
+}
+impl TryFrom<&Declaration> for FuncArgDetailsKey {
+    type Error = ();
+    fn try_from(value: &Declaration) -> Result<Self, Self::Error> {
+        match value {
+            Declaration::Function(k) => Ok(k.clone()),
+            Declaration::Var(_) => Err(()),
+        }
+    }
+}
+
+// ---- T6 ----
+#[derive(Debug)]
+pub(crate) struct Namespace;
+
+// ---- T7: statics::Error reduced to the variants the sliced code builds ----
+#[derive(Debug)]
+pub(crate) enum Error {
+    GenericWithNode { msg: String, node: AstNode },
+    UnresolvedIdentifier { node: AstNode },
 }
 """
 
@@ -59,57 +128,96 @@ unexpected_cfgs = { level = "allow" }
 
 MAIN = "fn main() {\n    u13::u13::enumerate_main();\n}\n"
 
-OBL = [
-    ("C18.resolve.named_arg_order.post", ["C18"], "nmismatch", "mismatches",
-     "for every parameter list of arity <= 3 (any subset with defaults) and every call of <= 4 arguments that is well-formed "
-     "(no unknown name, no duplicate, no missing required argument, no positional after named, not more positional arguments "
-     "than parameters): calculate_named_arg_order returns a vector of length nargs whose slot i holds positional argument i, "
-     "else the argument named param_i, else default_i"),
-    ("C04.resolve.named_arg_order.total", ["C04", "C18"], "npanic", "panics",
-     "for every parameter list of arity <= 3 and EVERY call of <= 4 arguments (each positional, named with a parameter name or "
-     "named with an unknown name, in any order): calculate_named_arg_order returns (no panic) and returns at most nargs slots"),
-]
+CTX_FIELDS = ['resolution_map', 'func_arg_details', 'function_call_arg_order', 'errors']
+# statements of update_function_arg_info that harness.rs `details()` mirrors
+MIRRORED = ('let symbol_table = SymbolTable::empty();',
+            'symbol_table.extend_declaration(name.v.clone(), Declaration::Var(name.node()));',
+            'arg_indices.insert(name.v.clone());', 'default_args.insert(i, default_arg);',
+            'required_args.insert(name.v.clone());',
+            'let nargs = required_args.len() + default_args.len();')
+
+POST_TEXT = ("for every parameter list of arity <= 3 (any subset with defaults) and every call of <= 4 arguments that is well-formed "
+             "(no unknown name, no duplicate, no missing required argument, no positional after named, not more positional arguments "
+             "than parameters): calculate_named_arg_order returns a vector of length nargs whose slot i holds positional argument i, "
+             "else the argument named param_i, else default_i")
+TOTAL_TEXT = ("for every parameter list of arity <= 3 and EVERY call of <= 4 arguments (each positional, named with a parameter name or "
+              "named with an unknown name, in any order): calculate_named_arg_order returns (no panic) and returns at most nargs slots")
+MISUSE_TEXT = ("for every call shape of the domain that has no more positional arguments than parameters: after "
+               "calculate_func_call_order(ctx, callee, args, call), ctx.errors is non-empty EXACTLY when the call is a misuse by the list of "
+               "C18: a name that is not a parameter; one parameter supplied twice (named+named or positional+named, positional argument j "
+               "standing for parameter j); a parameter without default supplied neither positionally nor by name; a positional argument "
+               "after a named one.  No panic.  (More positional arguments than parameters is not in the property's list; those shapes are "
+               "outside this obligation and reported as an observation in notes.)")
+ORDER_TEXT = ("for the same domain: (a) when the call is well-formed and no diagnostic was produced, ctx.function_call_arg_order[call] is "
+              "defined and equals the positional call with the omitted parameters filled in with their defaults; (b) whenever an order is "
+              "recorded, with or without diagnostics, it has exactly one entry per parameter (its consumers, generate_constraints_expr_"
+              "funcap_helper and the translator, read it as the positional argument list)")
 BOUND = ("arity <= 3 with every subset of defaults, <= 4 call arguments, each positional or named with one of a, b, c, zz: "
-         "%d inputs, all executed on the compiled slice (exhaustive native execution, not symbolic)")
+         "%d call shapes, all executed on the compiled slice (exhaustive native execution, not symbolic)")
 
 
 def build():
     sl = {}
-    fn = S.item(R, r'fn calculate_named_arg_order\(')
-    sl['calculate_named_arg_order'] = fn
-    fad = S.item(ST, r'pub\(crate\) struct FuncArgDetails \{')
-    sl['FuncArgDetails'] = fad
-    fad2 = S.drop_fields(fad, ['symbol_table', 'required_args'])
-    left = re.findall(r'^\s+(\w+):', fad2, re.M)
-    if left != ['arg_indices', 'default_args', 'nargs']:
-        raise S.SliceError("FuncArgDetails: fields after T1 are %s" % left)
-    for f in ('symbol_table', 'required_args'):
-        if re.search(r'\b%s\b' % f, fn):
-            raise S.SliceError("calculate_named_arg_order reads dropped field %s" % f)
-    fca = S.item(A, r'pub struct FuncCallArg \{')
-    sl['FuncCallArg'] = fca
-    ident = S.item(A, r'pub\(crate\) struct Identifier \{')
-    sl['Identifier'] = ident
-    ident2 = S.drop_fields(ident, ['loc', 'id'])
-    ident2 = ident2.replace('#[derive(Debug, Clone, PartialOrd, Ord, PartialEq, Eq)]',
-                            '#[derive(Debug, Clone, PartialOrd, Ord, PartialEq, Eq, Hash)] // T5: Hash derived (real impl hashes the dropped id)')
-    if 'Hash)]' not in ident2:
-        raise S.SliceError("Identifier derive line changed")
-    get_id = S.method(IDS, r'impl<T: Hash \+ Eq> IdSet<T> \{', 'get_id')
-    sl['IdSet::get_id'] = get_id
-    # the harness builds FuncArgDetails the way update_function_arg_info does: check its three statements
-    upd = S.item(R, r'fn update_function_arg_info\(')
-    for stmt in ('arg_indices.insert(name.v.clone());', 'default_args.insert(i, default_arg);',
-                 'let nargs = required_args.len() + default_args.len();'):
-        if stmt not in upd:
-            raise S.SliceError("update_function_arg_info no longer contains `%s` (harness constructor mirrors it)" % stmt)
+
+    def take(key, text):
+        sl[key] = text
+        return text
+
+    caller = take('calculate_func_call_order', S.item(R, r'pub\(crate\) fn calculate_func_call_order\('))
+    callee = take('calculate_named_arg_order', S.item(R, r'fn calculate_named_arg_order\('))
+    res_id = take('resolve_identifier', S.item(R, r'fn resolve_identifier\('))
+    res_sym = take('resolve_symbol', S.item(R, r'fn resolve_symbol\('))
+    symtab = take('SymbolTable', S.item(R, r'pub\(crate\) struct SymbolTable \{'))
+    symbase = take('SymbolTableBase', S.item(R, r'struct SymbolTableBase \{'))
+    base_m = [take('SymbolTableBase::' + m, S.method(R, r'impl SymbolTableBase \{', m)) for m in ('lookup_declaration', 'extend_declaration')]
+    tab_m = [take('SymbolTable::' + m, S.method(R, r'impl SymbolTable \{', m)) for m in ('empty', 'lookup_declaration', 'extend_declaration')]
+    # resolve_identifier must still be the lookup it is justified to be
+    if 'lookup_declaration(symbol)' not in res_sym or 'Error::UnresolvedIdentifier' not in res_sym:
+        raise S.SliceError("resolve_symbol no longer is `lookup_declaration(symbol)` / UnresolvedIdentifier")
+    fad = take('FuncArgDetails', S.item(ST, r'pub\(crate\) struct FuncArgDetails \{'))
+    fields = re.findall(r'^\s+(\w+):', fad, re.M)
+    if fields != ['symbol_table', 'arg_indices', 'required_args', 'default_args', 'nargs']:
+        raise S.SliceError("FuncArgDetails: fields are %s" % fields)
+    ctx_struct = S.item(ST, r'pub\(crate\) struct StaticsContext \{')
+    ctx_lines = []
+    for f in CTX_FIELDS:
+        m = re.findall(r'^[ \t]+pub\(crate\) %s: [^\n]*,\n' % f, ctx_struct, re.M)
+        if len(m) != 1:
+            raise S.SliceError("StaticsContext.%s found %d times" % (f, len(m)))
+        ctx_lines.append(m[0])
+    take('StaticsContext fields', "".join(ctx_lines))
+    # every ctx.<field> the sliced functions touch must be one of the four
+    for name, text in (('calculate_func_call_order', caller), ('resolve_symbol', res_sym), ('resolve_identifier', res_id)):
+        used = set(re.findall(r'\bctx\.(\w+)', text))
+        if not used <= set(CTX_FIELDS):
+            raise S.SliceError("%s touches StaticsContext fields outside T1: %s" % (name, sorted(used - set(CTX_FIELDS))))
+    ctx_stub = "// ---- T1: StaticsContext reduced to the fields the sliced code touches (real declarations) ----\npub(crate) struct StaticsContext {\n%s}\n" % "".join(ctx_lines)
+    fca = take('FuncCallArg', S.item(A, r'pub struct FuncCallArg \{'))
+    nodeid = take('NodeId', S.item(A, r'pub\(crate\) struct NodeId \{'))
+    ident = take('Identifier', S.item(A, r'pub\(crate\) struct Identifier \{'))
+    ident2 = S.drop_fields(ident, ['loc'])
+    ident_hash = S.impl_block(A, r'impl std::hash::Hash for Identifier \{')
+    ident_impl = S.impl_block(A, r'impl Identifier \{')
+    expr_impl = S.impl_block(A, r'impl Expr \{')
+    if len(ident_hash) != 1 or len(ident_impl) != 1 or len(expr_impl) != 1:
+        raise S.SliceError("impl blocks of Identifier/Expr not found exactly once")
+    for blk in (ident_impl[0], expr_impl[0]):
+        if len(re.findall(r'\bfn \w+', blk)) != 1 or 'fn node(' not in blk:
+            raise S.SliceError("impl Identifier / impl Expr contain more than `node`")
+    get_id = take('IdSet::get_id', S.method(IDS, r'impl<T: Hash \+ Eq> IdSet<T> \{', 'get_id'))
+    # the harness builds FuncArgDetails the way update_function_arg_info does
+    upd = take('update_function_arg_info', S.item(R, r'fn update_function_arg_info\('))
+    for stmt in MIRRORED:
+        if upd.count(stmt) != 1:
+            raise S.SliceError("update_function_arg_info no longer contains `%s` exactly once (harness constructor mirrors it)" % stmt)
     with open(os.path.join(HERE, 'harness.rs')) as f:
         h = f.read()
-    lib = PRELUDE
-    lib += "\n// ---- T5: ast.rs Identifier minus loc/id ----\n" + ident2 + "\n"
-    lib += "\n// ---- ast.rs FuncCallArg (verbatim) ----\n" + fca + "\n"
-    lib += "\n// ---- T1: statics.rs FuncArgDetails minus symbol_table/required_args ----\n" + fad2 + "\n"
-    lib += "\n// ---- resolve.rs calculate_named_arg_order (verbatim) ----\n" + fn + "\n"
+    lib = PRELUDE + "\n" + ctx_stub
+    lib += "\n// ---- ast.rs ----\n" + "\n".join([nodeid, "// T5: Identifier minus loc\n" + ident2, ident_hash[0], ident_impl[0], expr_impl[0], fca]) + "\n"
+    lib += "\n// ---- statics.rs FuncArgDetails (verbatim) ----\n" + fad + "\n"
+    lib += "\n// ---- resolve.rs (verbatim) ----\n" + "\n\n".join(
+        [symtab, symbase, "impl SymbolTableBase {\n" + "\n\n".join(base_m) + "\n}", "impl SymbolTable {\n" + "\n\n".join(tab_m) + "\n}",
+         res_id, res_sym, caller, callee]) + "\n"
     lib += "\n" + h
     return lib, sl
 
@@ -124,7 +232,7 @@ def _build_exe(sc, timeout=400):
     p = subprocess.run(["timeout", str(timeout), "cargo", "build", "--offline", "--quiet"], cwd=sc.path,
                        capture_output=True, text=True, env=env)
     if p.returncode != 0:
-        raise E.Undecided("u13: native build of the sliced function failed (drift?):\n" + p.stderr[-3000:])
+        raise E.Undecided("u13: native build of the sliced functions failed (drift?):\n" + p.stderr[-3000:])
     return os.path.join(env["CARGO_TARGET_DIR"], "debug", "u13"), sl
 
 
@@ -133,6 +241,47 @@ def _enumerate(exe, canary=False, timeout=300):
     if q.returncode != 0:
         raise E.Undecided("u13: enumerator failed rc=%d\n%s" % (q.returncode, (q.stdout + q.stderr)[-2000:]))
     return json.loads(q.stdout.strip().split("\n")[-1])
+
+
+def _verdicts(real, canary):
+    """-> list of (id, props, function, status, detail, text) from the enumerator's counters."""
+    c, cc = real["caller"], canary["caller"]
+    vac = None
+    if canary["nmismatch"] == 0 or cc["n_accepted_misuse"] == 0 or cc["n_rejected_valid"] == 0 or cc["n_order_wrong"] == 0:
+        vac = "vacuity canary: a wrong specification (shifted defaults / negated misuse predicate) is not distinguished from the real code"
+    else:
+        covers = dict(wellformed=real["wellformed"], illformed=real["illformed"], all_named_reordered=real["cover_all_named_reordered"],
+                      defaults_fill_two=real["cover_defaults_fill_two"], more_args_than_params=real["cover_more_args_than_params"],
+                      valid_shapes=c["valid_shapes"], unknown=c["cover_unknown"], duplicate_named_named=c["cover_duplicate_named_named"],
+                      duplicate_positional_named=c["cover_duplicate_positional_named"], missing=c["cover_missing"],
+                      positional_after_named=c["cover_positional_after_named"])
+        empty = [k for k, v in covers.items() if not v]
+        if empty:
+            vac = "vacuity guard: cover classes without a single input: %s" % empty
+    out = []
+
+    def add(oid, props, fn, nbad, detail, text):
+        if vac:
+            out.append((oid, props, fn, E.UNDECIDED, vac, text))
+        elif nbad:
+            out.append((oid, props, fn, E.FAILED, detail, text))
+        else:
+            out.append((oid, props, fn, E.DISCHARGED, "", text))
+
+    add("C18.resolve.named_arg_order.post", ["C18"], "calculate_named_arg_order", real["nmismatch"],
+        "%d of %d inputs: %s" % (real["nmismatch"], real["wellformed"], " | ".join(real["mismatches"][:5])), POST_TEXT)
+    add("C04.resolve.named_arg_order.total", ["C04", "C18"], "calculate_named_arg_order", real["npanic"] + real["nlong"],
+        "%d of %d inputs: %s" % (real["npanic"] + real["nlong"], real["shapes"], " | ".join(real["panics"][:5])), TOTAL_TEXT)
+    nm = c["n_accepted_misuse"] + c["n_rejected_valid"] + c["n_panic"]
+    add("C18.resolve.func_call_order.misuse_rejected", ["C18"], "calculate_func_call_order", nm,
+        "%d of %d call shapes (%d misuses accepted without diagnostic, %d valid calls rejected, %d panics): %s" % (
+            nm, c["in_domain"], c["n_accepted_misuse"], c["n_rejected_valid"], c["n_panic"], " | ".join(c["misuse_bad"][:5])), MISUSE_TEXT)
+    no = c["n_order_undefined"] + c["n_order_wrong"] + c["n_order_incomplete"]
+    add("C18.resolve.func_call_order.order_recorded", ["C18"], "calculate_func_call_order", no,
+        "%d of %d call shapes (%d well-formed calls without a recorded order, %d wrong orders, %d recorded orders that do not have one "
+        "entry per parameter): %s" % (no, c["in_domain"], c["n_order_undefined"], c["n_order_wrong"], c["n_order_incomplete"],
+                                      " | ".join(c["order_bad"][:5])), ORDER_TEXT)
+    return out
 
 
 def run(tier="quick"):
@@ -144,46 +293,120 @@ def run(tier="quick"):
         real = _enumerate(exe)
         t2 = time.time()
         canary = _enumerate(exe, canary=True)
-        vac = None
-        if canary["nmismatch"] == 0:
-            vac = "vacuity canary: a specification with wrong defaults is not distinguished from the real function"
-        elif not (real["wellformed"] and real["illformed"] and real["cover_all_named_reordered"] and
-                  real["cover_defaults_fill_two"] and real["cover_more_args_than_params"]):
-            vac = "vacuity guard: a cover class is empty: %s" % {k: v for k, v in real.items() if k.startswith('cover') or k.endswith('formed')}
-        sha = S.sha(sl['calculate_named_arg_order'] + sl['IdSet::get_id'])
+        sha = {'calculate_named_arg_order': S.sha(sl['calculate_named_arg_order'] + sl['IdSet::get_id']),
+               'calculate_func_call_order': S.sha(sl['calculate_func_call_order'] + sl['calculate_named_arg_order'] + sl['resolve_symbol'])}
         obs = []
-        for oid, props, nkey, lkey, text in OBL:
-            n = real[nkey] + (real["nlong"] if nkey == "npanic" else 0)
-            if vac:
-                st, detail = E.UNDECIDED, vac
-            elif n:
-                st = E.FAILED
-                detail = "%d of %d inputs: %s" % (n, real["shapes"] if nkey == "npanic" else real["wellformed"], " | ".join(real[lkey][:5]))
-            else:
-                st, detail = E.DISCHARGED, ""
-            obs.append(E.Obligation(oid, props, UNIT, "calculate_named_arg_order",
-                                    "exhaustive enumeration (native rustc build of the sliced function + real utils crate)",
-                                    st, detail, t2 - t1, R, sha, BOUND % real["shapes"], text))
+        for oid, props, fn, st, detail, text in _verdicts(real, canary):
+            obs.append(E.Obligation(oid, props, UNIT, fn,
+                                    "exhaustive enumeration (native rustc build of the sliced functions + real utils crate)",
+                                    st, detail, t2 - t1, R, sha[fn], BOUND % real["shapes"], text))
+        c = real["caller"]
+        notes = dict(build_s=round(t1 - t0, 1), enumeration_s=round(t2 - t1, 2),
+                     enumeration={k: v for k, v in real.items() if k not in ('panics', 'mismatches', 'caller')},
+                     caller={k: v for k, v in c.items() if k not in ('misuse_bad', 'order_bad')},
+                     canary=dict(callee_mismatches=canary["nmismatch"], accepted_misuse=canary["caller"]["n_accepted_misuse"],
+                                 rejected_valid=canary["caller"]["n_rejected_valid"], wrong_orders=canary["caller"]["n_order_wrong"]),
+                     observation_excess_positional=(
+                         "NOT an obligation (the property's misuse list does not mention it): %d call shapes whose only irregularity is "
+                         "more positional arguments than parameters; %d of them get no diagnostic today and the surplus arguments are "
+                         "dropped from the recorded order (e.g. %s). Real CLI: `fn g(a: int) { println(a) }  g(1, 2)` prints 1."
+                         % (c["excess_positional_only"], c["excess_positional_only_without_diagnostic"], "; ".join(c["excess_examples"][:2]))))
+        if tier == "thorough":
+            notes["mutation_self_test"] = selftest()
         info = dict(
             assumptions=[
-                "U13: FuncArgDetails is built as update_function_arg_info builds it for distinct parameter names (its three statements are checked syntactically on every run)",
-                "U13: HashMap iteration order is the one FxHashMap produces for these keys (the real map is used)",
-                "U13: that calculate_func_call_order rejects ill-formed shapes and that the translator emits arguments in the returned order is not covered",
+                "U13: FuncArgDetails is built as update_function_arg_info builds it for distinct parameter names (its six statements are checked syntactically on every run)",
+                "U13: the callee node resolves to a declaration that has FuncArgDetails (T4); the branch 'named arguments but no function definition known' is not exercised",
+                "U13: HashMap/HashSet iteration order is the one FxHash produces for these keys (the real maps are used)",
+                "U13: that the type checker and translator consume function_call_arg_order as the positional argument list is read from the source, not proved",
                 "U13: bounded domain executed exhaustively instead of symbolically (CBMC > 6 GB on one concrete (arity, length) pair)",
             ],
             trusted_base=["rustc (native build of the slice)", "tools/slicer.py",
-                          "U13/T1 FuncArgDetails minus symbol_table, required_args",
-                          "U13/T4 Expr = opaque id behind the real Rc",
-                          "U13/T5 Identifier minus loc, id (Hash derived)",
-                          "specification units/u13_named_args/harness.rs: expected()"],
-            checker_cmds=["cargo build --offline (scratch crate = sliced function + path dependency on utils) && target/debug/u13 [canary]"],
-            notes=dict(build_s=round(t1 - t0, 1), enumeration_s=round(t2 - t1, 2),
-                       enumeration={k: v for k, v in real.items() if k not in ('panics', 'mismatches')},
-                       canary_mismatches=canary["nmismatch"]),
+                          "U13/T1 StaticsContext = {resolution_map, func_arg_details, function_call_arg_order, errors} (real field declarations)",
+                          "U13/T2 Expr = opaque id behind the real Rc", "U13/T3 AstNode = opaque handle with id()",
+                          "U13/T4 Declaration, FuncArgDetailsKey opaque; try_from = Ok for functions",
+                          "U13/T5 Identifier minus loc", "U13/T6 Namespace = unit struct", "U13/T7 Error = {GenericWithNode, UnresolvedIdentifier}",
+                          "resolve_identifier / resolve_symbol / SymbolTable lookup: REAL text (not stubbed); swrite!: REAL macro from utils",
+                          "specification units/u13_named_args/harness.rs: classify(), expected()"],
+            checker_cmds=["cargo build --offline (scratch crate = sliced functions + path dependency on utils) && target/debug/u13 [canary]"],
+            notes=notes,
         )
         return obs, info
     finally:
         sc.cleanup()
+
+
+# ------------------------------------------------------------------ mutation self-test
+
+def _m_regression(t):
+    return t.replace("                    seen_named_args.insert(name.clone());\n", "", 1), t.count("                    seen_named_args.insert(name.clone());\n")
+
+
+def _m_no_pos_after_named(t):
+    rx = re.compile(r'(if named_encountered \{)\n\s+ctx\.errors\.push\(Error::GenericWithNode \{\n\s+msg: "Can\'t use unnamed argument after named arguments, only before"\n'
+                    r'\s+\.to_string\(\),\n\s+node: arg\.val\.node\(\),\n\s+\}\);')
+    return rx.subn(r'\1', t)
+
+
+def _m_no_missing_remove(t):
+    return t.replace("                    missing_arg_names.remove(name);\n", "", 1), t.count("                    missing_arg_names.remove(name);\n")
+
+
+def _m_no_return(t):
+    old = "                node: funcap_node,\n            });\n            return;\n        }\n        ctx.function_call_arg_order"
+    new = "                node: funcap_node.clone(),\n            });\n        }\n        ctx.function_call_arg_order"
+    return t.replace(old, new, 1), t.count(old)
+
+
+MUTANTS = [
+    ("M1 positional branch forgets `seen_named_args.insert(name.clone())` (the handed-over regression: f(x, a = y) accepted)",
+     _m_regression, "C18.resolve.func_call_order.misuse_rejected"),
+    ("M2 positional-after-named diagnostic dropped", _m_no_pos_after_named, "C18.resolve.func_call_order.misuse_rejected"),
+    ("M3 positional branch forgets `missing_arg_names.remove(name)` (valid calls rejected)", _m_no_missing_remove,
+     "C18.resolve.func_call_order.misuse_rejected"),
+    ("M4 `return` removed after the missing-arguments diagnostic (an order with holes is recorded)", _m_no_return,
+     "C18.resolve.func_call_order.order_recorded"),
+]
+
+
+def selftest():
+    """Apply each mutant to a scratch copy of the sliced sources (never to /repo) and require the named obligation to FAIL."""
+    repo_real = S.REPO
+    copy = E.Scratch("u13m-src")
+    crate = E.Scratch("u13m")
+    results = []
+    try:
+        for rel in (R, ST, A):
+            os.makedirs(os.path.dirname(os.path.join(copy.path, rel)), exist_ok=True)
+            shutil.copy(os.path.join(repo_real, rel), os.path.join(copy.path, rel))
+        shutil.copytree(os.path.join(repo_real, "utils"), os.path.join(copy.path, "utils"),
+                        ignore=shutil.ignore_patterns("target"))
+        with open(os.path.join(repo_real, R)) as f:
+            original = f.read()
+        S.REPO = copy.path
+        for name, fn, want in [("M0 unmutated copy (control: nothing may fail)", lambda t: (t, 1), None)] + MUTANTS:
+            mutated, k = fn(original)
+            if k != 1 or (want and mutated == original):
+                results.append(dict(mutant=name, result="NOT APPLIED (anchor found %d times)" % k, ok=False))
+                continue
+            with open(os.path.join(copy.path, R), "w") as f:
+                f.write(mutated)
+            S._cache.pop(os.path.join(copy.path, R), None)
+            try:
+                exe, _ = _build_exe(crate)
+                real, canary = _enumerate(exe), _enumerate(exe, canary=True)
+                v = _verdicts(real, canary)
+                failed = [o[0] for o in v if o[3] == E.FAILED]
+                first = next((o[4] for o in v if o[0] == want), "") if want else ""
+                ok = (want in failed) if want else (not failed and all(o[3] == E.DISCHARGED for o in v))
+                results.append(dict(mutant=name, expected_to_fail=want, failed=failed, ok=ok, first=first[:400]))
+            except E.Undecided as ex:
+                results.append(dict(mutant=name, result="UNDECIDED: " + str(ex)[:300], ok=False))
+        return results
+    finally:
+        S.REPO = repo_real
+        copy.cleanup()
+        crate.cleanup()
 
 
 # ------------------------------------------------------------------ replay on the real CLI
@@ -199,32 +422,39 @@ def _program(shape):
     return "fn f(%s) {\n%s  println(\"end\")\n}\nf(%s)\n" % (params, body, args)
 
 
-def _expected(shape):
+def _classify(shape):
+    """The property's misuse list, in Python (same sentence as harness.rs classify, written separately)."""
     np_, hd, nc, ch = shape['np'], shape['has_default'], shape['nc'], shape['choice']
     sup = [[] for _ in range(np_)]
+    kinds = set()
     named = False
     for j in range(nc):
         if ch[j] == 0:
             if named:
-                return None
-            idx = j
+                kinds.add("positional after named")
+            if j < np_:
+                sup[j].append(10 + j)
+            else:
+                kinds.add("excess positional")
         else:
             named = True
-            idx = ch[j] - 1
-        if idx >= np_:
-            return None
-        sup[idx].append(10 + j)
-    out = []
+            if ch[j] - 1 < np_:
+                sup[ch[j] - 1].append(10 + j)
+            else:
+                kinds.add("unknown name")
     for i in range(np_):
         if len(sup[i]) > 1:
-            return None
-        if not sup[i]:
-            if not hd[i]:
-                return None
-            out.append(100 + i)
-        else:
-            out.append(sup[i][0])
-    return out
+            kinds.add("duplicate")
+        if not sup[i] and not hd[i]:
+            kinds.add("missing")
+    expected = None
+    if not kinds:
+        expected = [sup[i][0] if sup[i] else 100 + i for i in range(np_)]
+    return kinds, expected
+
+
+def _expected(shape):
+    return _classify(shape)[1]
 
 
 def _shapes_from_detail(detail):
@@ -236,10 +466,14 @@ def _shapes_from_detail(detail):
 
 
 def replay(ob):
-    """The enumerator's failing inputs (in ob.detail) become Abra programs
-    `fn f(a: int, b: int = 101, ..) { println(a) .. }  f(10, c = 11, ..)` run on the real CLI.
-    total: confirmed iff the compiler panics.  post: confirmed iff the program is accepted and prints
-    other values than the specification."""
+    """The enumerator's failing call shapes (in ob.detail) become Abra programs
+    `fn f(a: int, b: int = 101, ..) { println(a) .. println("end") }  f(10, c = 11, ..)` run on the real CLI.
+      named_arg_order.total        : confirmed iff the compiler panics;
+      named_arg_order.post,
+      func_call_order.order_recorded: confirmed iff a well-formed call is accepted and prints other values than the
+                                     positional call with defaults (or the compiler panics);
+      func_call_order.misuse_rejected: confirmed iff the CLI accepts (compiles and runs) a call that is a misuse by the
+                                     property's list, or rejects a well-formed call with a diagnostic (or panics)."""
     shapes = _shapes_from_detail(ob.detail)
     info = dict(shapes=len(shapes))
     if not shapes:
@@ -251,16 +485,23 @@ def replay(ob):
         out, err, rc = abra_cli.run_program(prog)
         txt = re.sub(r'\x1b\[[0-9;]*m', '', out + err)
         panicked = "panicked at" in txt
-        want = _expected(shape)
-        tried.append(dict(program=prog, output=txt[:500], panicked=panicked, expected=want))
-        if ob.id.endswith('.total'):
-            if panicked:
-                info.update(tried=tried, failing_input=dict(program=prog, output=txt[:500]))
-                return True, info
+        kinds, want = _classify(shape)
+        got = [int(x) for x in out.split() if re.fullmatch(r'-?\d+', x)]
+        accepted = (not panicked) and "error" not in txt and out.rstrip().endswith("end")
+        rec = dict(program=prog, output=txt[:500], panicked=panicked, accepted=accepted, misuse=sorted(kinds), expected_values=want)
+        tried.append(rec)
+        confirmed = False
+        if ob.id.endswith('named_arg_order.total'):
+            confirmed = panicked
+        elif ob.id.endswith('misuse_rejected'):
+            listed = kinds - {"excess positional"}
+            confirmed = panicked or (bool(listed) and accepted) or (not kinds and not accepted)
+            rec['verdict'] = ("misuse accepted by the CLI" if (listed and accepted) else
+                              "well-formed call rejected by the CLI" if (not kinds and not accepted) else "compiler panic" if panicked else "agrees with the property")
         else:
-            got = [int(x) for x in txt.split() if re.fullmatch(r'-?\d+', x)]
-            if want is not None and (panicked or (rc == 0 and "error" not in txt and got != want)):
-                info.update(tried=tried, failing_input=dict(program=prog, output=txt[:500], expected=want))
-                return True, info
+            confirmed = want is not None and (panicked or (accepted and got != want))
+        if confirmed:
+            info.update(tried=tried, failing_input=dict(program=prog, output=txt[:500], misuse=sorted(kinds), expected_values=want))
+            return True, info
     info['tried'] = tried
     return False, info
